@@ -393,6 +393,11 @@ pub fn replay(ctx: &Ctx, sub: &str, case: &serde_json::Value, origin: &str) -> b
         "transport_sweep" => ctx.replay_case::<TSweepCase, _>(sub, case, tsweep_oracle, origin),
         "parse_strings" => ctx.replay_case::<ParseCase, _>(sub, case, parse_oracle, origin),
         "known_p256_invalid_scalar" => ctx.replay_case::<P256ScalarCase, _>(sub, case, p256_scalar_oracle, origin),
+        "fuzz_bytes" => {
+            let bytes: Vec<u8> = serde_json::from_value(case.clone()).unwrap_or_default();
+            let script = serde_json::to_value(ops::decode(&bytes)).unwrap();
+            ctx.replay_case::<ops::Script, _>("op_sequences", &script, script_oracle, origin)
+        },
         _ => ctx.replay_case::<ops::Script, _>(sub, case, script_oracle, origin),
     }
 }
